@@ -121,6 +121,15 @@ func corpusMain(stream string) {
 		ep.Statuses = []string{"FOO_STATUS_ACTIVE", "DONE"}
 		ep.Query = &j5sgen.Query{Filters: []string{"FOO_STATUS_ACTIVE", "DONE"}}
 		fmt.Println(compileOpLine("entity", onePkg("foo.v1", j5sFile("foo/v1/e.j5s", entityEl(ep))), "foo.v1", ""))
+		// statuses that state a number: numbered by position all the same (seeded change C17-m3)
+		en := simpleEntity("Foo")
+		en.Statuses = []string{"DRAFT", "ACTIVE", "DONE"}
+		en.StatusNums = j5sgen.Nums{"DRAFT": 1, "ACTIVE": 5}
+		fmt.Println(compileOpLine("entity", onePkg("foo.v1", j5sFile("foo/v1/e.j5s", entityEl(en))), "foo.v1", ""))
+		en = simpleEntity("Foo")
+		en.Statuses = []string{"ONLY"}
+		en.StatusNums = j5sgen.Nums{"ONLY": 10}
+		fmt.Println(compileOpLine("entity", onePkg("foo.v1", j5sFile("foo/v1/e.j5s", entityEl(en))), "foo.v1", ""))
 	case "total":
 		// inputs outside the language that must be rejected (b6c593a, cf01603)
 		for _, nc := range negCases {
@@ -144,6 +153,30 @@ func corpusMain(stream string) {
 		fmt.Println(compileOpLine("evolve", b, "foo.v1", j5sgen.EditsSexp(edits).String()))
 		edits = []*j5sgen.Edit{{Kind: "appendfield", FileIdx: 0, Path: []j5sgen.Step{{Kind: "el", Idx: 1}}, Prop: prop("zzNew0", mapf(fld(j5sgen.FString)))},
 			{Kind: "appenddecl", FileIdx: 0, Decl: obj("ZzNew1Object", prop("x", fld(j5sgen.FBool)))}}
+		fmt.Println(compileOpLine("evolve", b, "foo.v1", j5sgen.EditsSexp(edits).String()))
+		// OPEN c13-capture-append: `field foo object {…}` appended to object Foo makes Foo.Foo, which captures the
+		// relative name Foo.Bar of the existing inline type: (1) the package no longer links, (2) with a twin
+		// `bar` inside the new object the existing field is silently retargeted to Foo.Foo.Bar
+		b = onePkg("foo.v1", j5sFile("foo/v1/a.j5s", obj("Foo", prop("bar", inlObj("", prop("x", fld(j5sgen.FString)))))))
+		at0 := []j5sgen.Step{{Kind: "el", Idx: 0}}
+		edits = []*j5sgen.Edit{{Kind: "appendfield", FileIdx: 0, Path: at0, Prop: prop("foo", inlObj("", prop("zzInner", fld(j5sgen.FString))))}}
+		fmt.Println(compileOpLine("evolve", b, "foo.v1", j5sgen.EditsSexp(edits).String()))
+		edits = []*j5sgen.Edit{{Kind: "appendfield", FileIdx: 0, Path: at0, Prop: prop("foo", inlObj("", prop("zzInner", fld(j5sgen.FString)),
+			prop("bar", inlObj("", prop("zzTwin", fld(j5sgen.FBool))))))}}
+		fmt.Println(compileOpLine("evolve", b, "foo.v1", j5sgen.EditsSexp(edits).String()))
+		// numbers written on options are ignored: an appended option that claims a number already handed out by
+		// position moves nothing (seeded changes C13-m4, C17-m3)
+		b = onePkg("foo.v1", j5sFile("foo/v1/a.j5s", enumEl("Status", "", "ACTIVE", "INACTIVE"), obj("Foo", prop("a", fld(j5sgen.FString)))))
+		edits = []*j5sgen.Edit{{Kind: "appendoption", FileIdx: 0, Path: at0, Option: "ARCHIVED", OptNum: 2}}
+		fmt.Println(compileOpLine("evolve", b, "foo.v1", j5sgen.EditsSexp(edits).String()))
+		edits = []*j5sgen.Edit{{Kind: "appendoption", FileIdx: 0, Path: at0, Option: "A"}, {Kind: "appendoption", FileIdx: 0, Path: at0, Option: "B"},
+			{Kind: "appendoption", FileIdx: 0, Path: at0, Option: "LEGACY", OptNum: 1}}
+		fmt.Println(compileOpLine("evolve", b, "foo.v1", j5sgen.EditsSexp(edits).String()))
+		// a primary key appended to a hand-written KEYS object after a non-primary key keeps the order (C13-m3)
+		keys := obj("WidgetKeys", prop("widgetId", keyf("id62", primary())), prop("tenantId", keyf("id62", nil)))
+		keys.Object.PSM = &j5sgen.ObjPSM{Entity: "Widget", Part: "keys"}
+		b = onePkg("foo.v1", j5sFile("foo/v1/a.j5s", keys))
+		edits = []*j5sgen.Edit{{Kind: "appendfield", FileIdx: 0, Path: at0, Prop: prop("revision", keyf("id62", primary()))}}
 		fmt.Println(compileOpLine("evolve", b, "foo.v1", j5sgen.EditsSexp(edits).String()))
 	}
 }
